@@ -38,6 +38,18 @@ CH_ASSUME = [
 CH_RULE = "det mode: 2-5 threads, seeded op lists (send / clone / drop of Senders, try_recv / recv / recv_timeout with virtual time-outs, drain or early drop of Receivers; a gated variant keeps every Sender alive until the receiver has got everything, so that a lost wake-up shows as a deadlock), seeded random schedules with stickiness; distinct = SHA-1 of the canonical trace"
 # ---- end C06 / C07 constants
 
+def _f6_fixed():
+    """does the tree under test contain the F6 fix (Park::subscribe re-checks the time after publishing)? same test as
+    harness/src/scn/live_park.rs::f6_fixed"""
+    import os
+    try:
+        src = open(os.path.join(os.environ.get("VERIF_REPO", "/repo"), "src", "park.rs")).read()
+        i = src.find("fn subscribe")
+        return i >= 0 and "now() >= deadline" in src[i:]
+    except OSError:
+        return False
+
+
 PROPS = {
     "C01": dict(
         lean_props=["MayVerif.Props.C01"],
@@ -271,7 +283,11 @@ PROPS = {
             dict(mode="live", name="park", quick=300, thorough=4000, nontrivial=r" park\.wait_co@\S+ opt\.take 0 0 [0-9]", timeout=600),
             dict(mode="live", name="blocker", quick=240, thorough=3000, nontrivial=r"(opt\.take 0 0 [0-9]|ret - blk\.park 1 )", timeout=600),
             dict(mode="det", name="blocker_thr", quick=600, thorough=10000, nontrivial=r"park_return 0 0 1 "),
-        ],
+        ] + ([
+            # only on a tree with the F6 fix: short timed parks that nobody unparks and nobody rescues, the kernel tail
+            # stalled between arming and publication by the perturbation; a lost time-out is a hang report
+            dict(mode="live", name="park_f6", quick=240, thorough=3000, nontrivial=r" park\.wait_co@\S+ opt\.take 0 0 [0-9]", timeout=600),
+        ] if _f6_fixed() else []),
         trusted_base=TB_COMMON + [
             "live mode: the trace is a linearization of the hooked operations (one global log lock); operations that are not hooked in this layer (schedule, the timer list incl. add_timer/del_timer, get_co_para, the AtomicPtr timeout_handle) are silent model steps placed lazily by the replay",
             "ThreadPark (parking_lot mutex + condvar) is modelled by contract: nothing inside it is hooked in live mode and det mode replaces it by the controller's virtual token; the replay checks the API-boundary history of thread-context blockers against the token model",
@@ -280,7 +296,8 @@ PROPS = {
         ],
         assumptions=[
             "fair scheduling for the no-lost-wake-up theorem (quiescence form): every actor with an enabled step eventually takes it; the wait_kernel spin ends",
-            "timed parks: the time-out can be lost when the timer fires between add_timer and wait_co.store in Park::subscribe (defect F6, witness park_timeout_lost_F6; pending_fixes/README-C02.md); park_timeout_returns_partial excludes exactly that window",
+            "timed parks: on a tree WITHOUT pending_fixes/F6.patch the time-out can be lost when the timer fires between add_timer and wait_co.store in Park::subscribe (defect F6, witness park_timeout_lost_F6 on the pinned variant of the model); the replay selects the pinned / fixed variant from the source-derived header flag f6fix=, the theorems (park_timeout_returns) are about the fixed code; on an unfixed tree timed parks are rescued by an unpark after 80 ms and family park_f6 is not run",
+            "time is one bit per kernel tail (`due`: its deadline has passed); that the timer thread pops an entry only at or after its time, and does pop it, is C08",
             "durations are whole milliseconds >= 1 ms (sub-millisecond time-outs are stored as 'no time-out': defect F2, owned by C08)",
         ],
         rule="det mode (blocker_thr): Blocker in thread context, virtual ThreadPark, 1-5 parks with virtual time-outs, 1-3 unparker threads; live mode, 1-3 workers, perturbation 0-60%: one parker (coroutine on its per-coroutine handle, or coroutine/thread on fresh Blockers), 1-4 unparkers (threads and coroutines), 1-4 rounds of park / park_timeout(1-30 ms); non-trivial = some actor took the coroutine out of the slot (or a thread-context park timed out); distinct = SHA-1 of the canonical trace",
